@@ -250,6 +250,7 @@ pub fn run(rep: &'static Report) {
             rep.violation("real server: after scan ∥ didOpen the document's symbols are not those of the buffer", &format!("{}: symbols {:?}, buffer defines {:?}", file, names, want), || json!({"file": file, "disk": disk, "buffer": buf, "run": i}));
         }
         srv.shutdown();
+        crate::report::tick();
     }
     rep.set("real_server_conformance_runs", json!({"runs": runs, "describing_the_buffer_exactly_once": conf_ok}));
     rep.set("states", total_states as u64);
